@@ -13,9 +13,11 @@ marrow arrays of build k.  Here the builder model is plugged in (`BuildCore.hist
                              `to_marrow(fields, batch k)` — the rows added since the previous build, whichever finishers
                              were called before (`to_record_batch`: under the fields of the schema the builder was created
                              with).  No hypothesis on schema or rows.
-  builder_reuse_decodes      with the hypotheses of `C10_histories` and `hA`/`hB` (a converted array means what the marrow
-                             array means): the arrays of an arrow / arrow2 build and the columns of a record batch decode,
-                             column by column, to the documented values of batch k.
+  builder_reuse_decodes      with `SchemaOKF` and `coveredF` of the fields, `noRaw` rows in EVERY operation (`OpsOK noRaw`: the
+                             hypotheses of `C10_histories` narrowed to rows without raw key / value streams; no `Safe`) and
+                             `hA`/`hB` (a converted array means what the marrow array means): the arrays of an arrow / arrow2
+                             build and the columns of a record batch decode, column by column, to the documented values of
+                             batch k.
 -/
 namespace SaModel.Props.C19
 open SaModel SaModel.Backend SaModel.Build SaModel.Lemmas.C19
@@ -133,8 +135,9 @@ theorem builder_reuse_one_shot (ext : Ext) (dn : List Field → List Arr → R D
       refine ⟨couts[k].2, hone, hk k f couts[k].2 hf ?_⟩
       simp [List.getElem?_map, List.getElem?_eq_getElem hk2]
 
-/-- … and what the arrays mean: under the hypotheses of `C10.C10_histories` (schema within the covered fragment, no raw
-calls; NO `Safe` hypothesis — `Props.C01.C01_build_decode'`, the hidden-rows refinement) and `hA` / `hB` (a converted array decodes to what the marrow array decodes to — the hypotheses of
+/-- … and what the arrays mean: under `hschema` (`SchemaOKF`), `hcov` (`coveredF`) and `hraw` (`OpsOK noRaw`: no raw key / value
+calls in ANY operation — `C10.C10_histories` itself asks only `structStreamsAlternate` and `noRaw ∨ narrowRoot`; NO `Safe`
+hypothesis — `Props.C01.C01_build_decode'`, the hidden-rows refinement) and `hA` / `hB` (a converted array decodes to what the marrow array decodes to — the hypotheses of
 `backends_agree`, validated by the `backend` suite), the arrays of build k — marrow's, arrow's, arrow2's, the columns of a
 record batch — decode, column by column, to the documented values of the records of batch k. -/
 theorem builder_reuse_decodes (ext : Ext) (dn : List Field → List Arr → R D) (de : D → R Out)
